@@ -138,4 +138,24 @@ theorem encoding_header_names_choice (p : Proto) (kind : StreamKind) (resp : Byt
 example : negotiate [Gen.compressionGzip, [122, 122]] [] [122, 122, 44, 103, 122, 105, 112] = .ok Gen.compressionIdentity [122, 122] := by decide
 example : advertisedNames [Gen.compressionGzip, [98, 114], Gen.compressionGzip] = [Gen.compressionGzip, [98, 114]] := by decide
 
+/-! ### algorithms registered with nil constructors (fix F22) -/
+
+/-- **nil_constructors_not_registered**: `WithCompression` / `WithAcceptCompression` with a nil
+    constructor (or an empty name) leaves the set of supported algorithms as it was: the name is
+    neither advertised nor negotiated — and a request that uses it
+    is refused as unimplemented like any other unknown name (`negotiate_unknown`). -/
+theorem nil_constructors_not_registered (reg : List Bytes) (name : Bytes) (d c : Bool)
+    (h : name = [] ∨ d = false ∨ c = false) : registerCompression reg name d c = reg := by
+  rcases h with h | h | h <;> simp [registerCompression, h]
+
+theorem real_constructors_registered (reg : List Bytes) (name : Bytes) (h : name ≠ []) :
+    registerCompression reg name true true = reg ++ [name] := by
+  simp [registerCompression, h]
+
+/-- **History, F22**: the pool was never nil, so the name was registered all the same — and the
+    first message that used it ran into `sync.Pool.New` with a nil constructor -/
+theorem nil_constructors_registered_on_pinned (reg : List Bytes) (name : Bytes) (h : name ≠ []) :
+    registerCompressionPinned reg name false false = reg ++ [name] := by
+  simp [registerCompressionPinned, h]
+
 end ConnectModel.C08
